@@ -3,6 +3,7 @@ package main
 // Solver session of one path, obligations, candidate violations.
 
 import (
+	"os"
 	"fmt"
 	"sort"
 	"strings"
@@ -346,6 +347,12 @@ func (s *Session) Feasible(t *Term) bool {
 	s.endQuery()
 	if strings.HasPrefix(ans, "error") {
 		s.res.Errors = append(s.res.Errors, "solver error in feasibility check: "+ans)
+		if os.Getenv("VERIF_DEBUG_FEAS") != "" {
+			logf("    feasibility error at %s: %s\n      term: %.600s\n", s.ex.curPos(), ans, t.String())
+			if d := os.Getenv("VERIF_DEBUG_FEAS"); d != "1" {
+				os.WriteFile(d, []byte(s.script.String()+"\n;; query\n(assert "+n+")\n"), 0o644)
+			}
+		}
 		return true
 	}
 	return ans != "unsat"
